@@ -101,17 +101,42 @@ func (m *Mutation) BlockMutated(bcoord dvid.IZYXString, block interface{}) error
 func (m *Mutation) Execute() error {
 	timedLog := dvid.NewTimeLog()
 	m.Lock()
+	defer m.Unlock()
+	if m.hiresCache == nil {
+		return fmt.Errorf("mutation %d for data %q was already executed or aborted", m.mutID, m.d.DataName())
+	}
 	bm := m.hiresCache
+	m.hiresCache = nil
 	var err error
 	for scale := uint8(0); scale < m.d.GetMaxDownresLevel(); scale++ {
 		bm, err = m.d.StoreDownres(m.v, scale, bm)
 		if err != nil {
+			// release the scales that will not be computed so the data doesn't stay "updating" forever.
+			for s := scale + 1; s <= m.d.GetMaxDownresLevel(); s++ {
+				m.d.StopScaleUpdate(s)
+			}
 			return fmt.Errorf("mutation %d for data %q: %v", m.mutID, m.d.DataName(), err)
 		}
 		m.d.StopScaleUpdate(scale + 1)
 	}
-	m.hiresCache = nil
-	m.Unlock()
 	timedLog.Debugf("Computed and stored downres for scale 1 to %d for data %q", m.d.GetMaxDownresLevel(), m.d.DataName())
 	return nil
+}
+
+// Abort releases the scale-updating marks of a mutation that will not be executed, e.g., because
+// the request failed.  It does nothing on a nil Mutation or after Execute, so it can be deferred
+// right after NewMutation.
+func (m *Mutation) Abort() {
+	if m == nil {
+		return
+	}
+	m.Lock()
+	defer m.Unlock()
+	if m.hiresCache == nil {
+		return
+	}
+	m.hiresCache = nil
+	for scale := uint8(1); scale <= m.d.GetMaxDownresLevel(); scale++ {
+		m.d.StopScaleUpdate(scale)
+	}
 }
